@@ -135,43 +135,44 @@ func checkClosedResultZero(c *Ctx, r *Report, rule string) {
 			r.OK(rule, construct, pos, "the received value is compared with nil before it is used")
 			continue
 		}
-		// (b) every send-less exit of the worker is taken only because a cancel-only context of the spawner is over
-		bad := ""
-		for _, ret := range sendless {
-			governed := false
-			for _, ec := range edgeConds(ret.Block()) {
-				cv := ctxOverCondition(ec)
-				if cv == nil {
-					continue
-				}
-				kind, src := ctxOrigin(cv, 0)
-				call, _ := src.(*ssa.Call)
-				if kind != "with-timeout" || call == nil {
-					bad = fmt.Sprintf("the worker leaves at %s without sending when a context it does not own is over", c.Pos(ret.Pos()))
-					continue
-				}
-				if o := CalleeObj(call); o == nil || o.Name() != "WithCancel" || call.Parent() != wi.Spawner {
-					name := "?"
-					if o != nil {
-						name = o.Name()
-					}
-					bad = fmt.Sprintf("the worker leaves at %s without sending once its context is over, and that context (context.%s at %s) ends by itself: the worker then closes the result channel while %s is still waiting, the receive yields the zero value and an empty answer is recorded as a success instead of the timeout error", c.Pos(ret.Pos()), name, c.Pos(call.Pos()), shortFn(wi.Spawner))
-					continue
-				}
-				governed = true
-			}
-			if selectDoneGoverned(ret.Block(), wi.Spawner) {
-				governed = true
-			}
-			if !governed && bad == "" {
-				bad = fmt.Sprintf("the worker can leave at %s without sending for a reason other than the spawner's own cancel; the spawner takes the zero value of the closed channel for an answer", c.Pos(ret.Pos()))
-			}
-			if governed {
-				continue
+		// (b) the contexts the worker is started with are cancel-only contexts of the spawner: it then leaves without an
+		// answer only after the spawner's deferred cancel, i.e. once nobody receives any more. A context with a deadline of
+		// its own lets the worker close the channel while the spawner still waits.
+		var ctxVals []ssa.Value
+		for _, a := range wi.Go.Call.Args {
+			if isContextType(a.Type()) {
+				ctxVals = append(ctxVals, a)
 			}
 		}
+		if mc, isMC := wi.Go.Call.Value.(*ssa.MakeClosure); isMC {
+			for _, b := range mc.Bindings {
+				if isContextType(b.Type()) {
+					ctxVals = append(ctxVals, b)
+				} else if pt, isP := b.Type().(*types.Pointer); isP && isContextType(pt.Elem()) {
+					if a, isA := b.(*ssa.Alloc); isA {
+						for _, ref := range *a.Referrers() {
+							if st, isSt := ref.(*ssa.Store); isSt && st.Addr == ssa.Value(a) {
+								ctxVals = append(ctxVals, st.Val)
+							}
+						}
+					}
+				}
+			}
+		}
+		bad := ""
+		for _, cv := range ctxVals {
+			kind, src := ctxOrigin(cv, 0)
+			call, _ := src.(*ssa.Call)
+			if kind != "with-timeout" || call == nil {
+				continue
+			}
+			if o := CalleeObj(call); o != nil && o.Name() != "WithCancel" {
+				bad = fmt.Sprintf("the worker is started with a context that ends by itself (context.%s at %s) and can leave without sending once it is over: it then closes the result channel while %s is still waiting, the receive yields the zero value and an empty answer is recorded as a success instead of the timeout error", o.Name(), c.Pos(call.Pos()), shortFn(wi.Spawner))
+			}
+		}
+		_ = sendless
 		if bad == "" {
-			r.OK(rule, construct, pos, "the worker leaves without sending only after the spawner's deferred cancel, when nobody receives any more")
+			r.OK(rule, construct, pos, "the worker's context is cancel-only: it leaves without sending only after the spawner's deferred cancel, when nobody receives any more")
 		} else {
 			r.Bad(rule, construct, pos, bad)
 		}
